@@ -426,6 +426,10 @@ pub fn seq_strategy() -> BoxedStrategy<SeqCase> {
 }
 
 pub fn run_seq_case(case: &SeqCase) -> Verdict {
+    run_seq_case_for("C17", case)
+}
+
+pub fn run_seq_case_for(prop: &'static str, case: &SeqCase) -> Verdict {
     let checks_done = Arc::new(AtomicBool::new(false));
     let viol: Arc<StdMutex<Option<(String, String)>>> = Arc::new(StdMutex::new(None));
     let stats: Arc<StdMutex<(usize, usize, usize)>> = Arc::new(StdMutex::new((0, 0, 0)));
@@ -545,12 +549,12 @@ pub fn run_seq_case(case: &SeqCase) -> Verdict {
     });
     match &res.end {
         ExecEnd::Completed | ExecEnd::Deadlock { after_checks: true, .. } => {}
-        ExecEnd::Deadlock { after_checks: false, blocked } => return fail("C17/seq/receive-blocked-although-something-queued", blocked.chars().take(300).collect::<String>()),
-        ExecEnd::Panic(m) => return fail("C17/seq/panic", m.clone()),
+        ExecEnd::Deadlock { after_checks: false, blocked } => return fail(format!("{}/seq/receive-blocked-although-something-queued", prop), blocked.chars().take(300).collect::<String>()),
+        ExecEnd::Panic(m) => return fail(format!("{}/seq/panic", prop), m.clone()),
         ExecEnd::StepBound => return Verdict::Inconclusive("step bound".into()),
     }
     if let Some((k, d)) = viol.lock().unwrap().clone() {
-        return fail(format!("C17/seq/{}", k), d);
+        return fail(format!("{}/seq/{}", prop, k), d);
     }
     let (unblocks, with_both, _) = *stats.lock().unwrap();
     let mut g = if unblocks > 0 && with_both > 0 { Good::nontrivial() } else { Good::trivial() };
